@@ -3,22 +3,24 @@
 # written against (plus any further checks named in seeded/<id>/checks: a change can break a property through code
 # another property's check exercises), undo, record what fired.
 # Run it from a snapshot of /verif (VERIF_DIR) when /verif is being edited.
-VERIF_DIR=${VERIF_DIR:-/verif}; cd $VERIF_DIR
+# REPO_DIR (default /repo) is the tree the change is applied to: a lane of a parallel sweep uses a scratch worktree of
+# /repo together with a snapshot of /verif whose harness/go.mod points at that worktree (tools/seed_lanes.sh).
+VERIF_DIR=${VERIF_DIR:-/verif}; REPO_DIR=${REPO_DIR:-/repo}; OUT_DIR=${OUT_DIR:-/root/detect}; cd $VERIF_DIR
 ids="$@"
 [ -z "$ids" ] && ids=$(ls seeded | grep -E '^C[0-9]+-[A-Z]$')
-mkdir -p /root/detect
+mkdir -p $OUT_DIR
 for id in $ids; do
   prop=${id%-*}
   checks=$prop
   [ -f $VERIF_DIR/seeded/$id/checks ] && checks=$(cat $VERIF_DIR/seeded/$id/checks)
-  if ! git -C /repo apply $VERIF_DIR/seeded/$id/patch.diff 2>/root/detect/$id.apply; then echo "$id APPLY-FAILED"; continue; fi
-  rc=0; : > /root/detect/$id.out
+  if ! git -C $REPO_DIR apply $VERIF_DIR/seeded/$id/patch.diff 2>$OUT_DIR/$id.apply; then echo "$id APPLY-FAILED"; continue; fi
+  rc=0; : > $OUT_DIR/$id.out
   for p in $checks; do
-    timeout 1800 ./check $p quick >> /root/detect/$id.out 2>&1; r=$?
+    timeout 1800 ./check $p quick >> $OUT_DIR/$id.out 2>&1; r=$?
     [ $r -gt $rc ] && rc=$r
     [ $r = 1 ] && break
   done
-  git -C /repo checkout -- . ; git -C /repo status --short | grep -v '^??' | head -2
-  keys=$(grep -aE '^VIOLATION' /root/detect/$id.out | sed -E 's/.* key=([^ ]+) .*/\1/' | sort -u | head -6 | paste -sd' ')
+  git -C $REPO_DIR checkout -- . ; git -C $REPO_DIR status --short | grep -v '^??' | head -2
+  keys=$(grep -aE '^VIOLATION' $OUT_DIR/$id.out | sed -E 's/.* key=([^ ]+) .*/\1/' | sort -u | head -6 | paste -sd' ')
   echo "$id rc=$rc keys: $keys"
 done
